@@ -51,7 +51,14 @@ func propWith(t *rapid.T, shape string) {
 	n := len(ref.Evs)
 	cfgA, nameA := vidx.DrawConfig(t, "cfgA")
 	cfgB, _ := vidx.DrawConfig(t, "cfgB")
-	a := vidx.New(ref, cfgA)
+	// a third of the index objects have served another epoch (another validator group) before
+	servedBefore := rapid.IntRange(0, 2).Draw(t, "indexServedAnotherEpochBefore") == 0
+	var a *vidx.Index
+	if servedBefore {
+		a = vidx.NewAfterOtherEpoch(t, ref, cfgA)
+	} else {
+		a = vidx.New(ref, cfgA)
+	}
 	b := vidx.New(ref, cfgB)
 	orderA := dagen.GenOrder(t, ref, "orderA")
 	orderB := dagen.GenOrder(t, ref, "orderB")
@@ -222,6 +229,9 @@ func propWith(t *rapid.T, shape string) {
 	}
 	if info.Shape != "" {
 		classes = append(classes, "shape_"+info.Shape)
+	}
+	if servedBefore {
+		classes = append(classes, "index_served_another_epoch_before")
 	}
 	if sessA.Reloads+sessB.Reloads > 0 {
 		classes = append(classes, "index_reloaded_from_db")
